@@ -37,6 +37,14 @@ class JaxDiscreteField(object):
             return self.value + other.value
         return self.value + other
 
+    def __radd__(self, other):
+        if isinstance(other, JaxDiscreteField):
+            return other.value + self.value
+        return other + self.value
+
+    def __neg__(self):
+        return -self.value
+
     def __sub__(self, other):
         if isinstance(other, JaxDiscreteField):
             return self.value - other.value
@@ -69,6 +77,9 @@ class JaxDiscreteField(object):
 
     def __pow__(self, ix):
         return self.value ** ix
+
+    def __rpow__(self, other):
+        return other ** self.value
 
     def __array__(self):
         return self.value
